@@ -108,6 +108,48 @@ def success_sites(body):
     return out
 
 
+def none_only_when_empty(ck, prog, pvn, nb):
+    """`<private iterator>::next` answers None only when the remaining input is EMPTY: every block that sets the result to None is dominated by the
+    true edge of an `is_empty()` / by `len == 0` / `len < 1`; a `len < c` (c > 1) in front of a None drops up to c-1 trailing bytes unseen.
+    Emits the obligation `exhaustion/<next>`; returns True / False / None (not recognised)."""
+    from engines import positive_edges, compare_switches, relation_cases
+    nones = [bi for bi in sorted(nb.reach) for st in nb.blocks[bi].stmts if st.k == "assign" and st.place.is_local() and st.place.local == 0 and st.rv["k"] == "agg" and st.rv.get("variant") == "None"]
+    if not nones:
+        return None
+    verdicts = []
+    for nbi in nones:
+        v = None
+        for cbi, ct in nb.calls():
+            if ct.callee.method == "is_empty" and any(nb.edge_dominates(e, nbi) for e in positive_edges(nb, pvn, cbi)):
+                v = True
+        for cs in compare_switches(nb, pvn):
+            lens = [any(a[0] == "call" and re.search(r"::len$", a[1]) for a in pvn.of_operand(nb, cs[k])) for k in ("l", "r")]
+            if sum(lens) != 1:
+                continue
+            other = cs["r"] if lens[0] else cs["l"]
+            c = other.int_value() if other.kind == "const" else None
+            if c is None:
+                continue
+            cases = relation_cases(cs, swap=not lens[0])  # len against c
+            stop = {k for k, tg in cases.items() if tg is not None and (tg == nbi or nb.edge_dominates((cs["bb"], tg), nbi))}
+            if not stop or stop == {"lt", "eq", "gt"}:
+                continue
+            if (stop == {"lt"} and c == 1) or (stop == {"eq"} and c == 0) or (stop == {"lt", "eq"} and c == 0):
+                v = True if v is None else v
+            elif stop <= {"lt", "eq"}:
+                v = False
+                why = "len %s %d" % ("<" if stop == {"lt"} else "<=", c)
+                ck.ob("DOM", "exhaustion/%s" % nb.short, False, "%s answers `None` (end of input) when %s: up to %d trailing byte(s) are never looked at, and a caller that takes the exhaustion for `all input consumed` accepts them" % (nb.short, why, c - 1 if stop == {"lt"} else c), where=nb.where(cs["line"]))
+        verdicts.append(v)
+    if any(v is False for v in verdicts):
+        return False
+    if all(v is True for v in verdicts):
+        ck.ob("DOM", "exhaustion/%s" % nb.short, True, "%s answers `None` only when the remaining input is empty" % nb.short, where=nb.where())
+        return True
+    ck.undecided("DOM", "exhaustion/%s" % nb.short, "%s: the condition under which it answers `None` is not an emptiness / length test that is read here" % nb.short, where=nb.where())
+    return None
+
+
 def run(ck, prog, ctx):
     ck.rule("TABLE", "accepted version bytes and their mapping (DESIGN 3.12)")
     ck.rule("DOM", "success dominated by consumed == input length (DESIGN 3.6)")
@@ -189,6 +231,27 @@ def run(ck, prog, ctx):
         for e in eqs:
             for ed in bool_true_edges(b, e["local"], want=(e["op"] == "Eq")):
                 edges.setdefault(e["kind"], []).append(ed)
+        # `sections.next().is_none()` on a crate-private iterator over the input: the iterator's exhaustion is the end test, PROVIDED that its
+        # `next` answers `None` only when nothing at all is left (judged below, `exhaustion/<iterator>`)
+        from engines import positive_edges as _pe8
+        for cbi, ct in b.calls():
+            if ct.callee.method in ("is_none", "is_some") and len(ct.args) == 1:
+                src_ = [a for a in pvn.of_operand(b, ct.args[0]) if a[0] == "call" and a[3] == b.id and a[1].endswith("::next") and a[2] in prog.bodies and prog.bodies[a[2]].impl_trait and not prog.bodies[a[2]].exported]
+                if not src_ and ct.args[0].place is not None:
+                    src_ = [(None, None, t2.callee.res) for b2, t2 in b.calls() if t2.callee.method == "next" and t2.callee.res in prog.bodies and prog.bodies[t2.callee.res].impl_trait and t2.dest is not None and t2.dest.is_local() and any(a[0] == "call" and a[3] == b.id and a[4] == b2 for a in pvn.of_operand(b, ct.args[0]))]
+                for a in src_:
+                    nb_ = prog.bodies.get(a[2])
+                    if nb_ is None:
+                        continue
+                    verdict = none_only_when_empty(ck, prog, pvn, nb_)
+                    pe_ = set(_pe8(b, pvn, cbi))
+                    for sb_ in sorted(b.reach):
+                        x_ = b.blocks[sb_].term
+                        if x_.k == "switch" and any(e_[0] == sb_ for e_ in pe_):
+                            for tg_ in x_.successors():
+                                is_pos = (sb_, tg_) in pe_
+                                if (ct.callee.method == "is_none") == is_pos and verdict is not False:
+                                    edges.setdefault("offset==len", []).append((sb_, tg_))
         succ = success_sites(b)
         if not succ:
             ck.undecided("DOM", name + "/success", "no success value recognised", where=b.where())
